@@ -18,6 +18,7 @@ import (
 	"time"
 
 	"verifmc/evid"
+	"verifmc/pk"
 	"verifmc/vrt"
 )
 
@@ -127,7 +128,17 @@ func RunOnce(sc *Scenario, prefix []int) (*vrt.Exec, []Finding) {
 	if sc.Setup != nil {
 		sc.Setup(x)
 	}
+	// crypto/rand is nondeterminism the explorer has to own (Noise ephemerals decide the
+	// tie-break of simultaneous handshakes): every execution starts from the same seeded
+	// stream, and each read is an event on a shared cell so that state caching never merges
+	// prefixes that consumed it in a different order. Scenarios may re-seed (chlab does).
+	pk.SeedRandom(0x5eed, func() {
+		if cx := vrt.Cur(); cx != nil && !cx.Aborting() && cx.Me() != nil {
+			cx.Touch(&cx.RandCell, 0x7a4d)
+		}
+	})
 	x.Run(func() { sc.Body(x) })
+	pk.RestoreRandom()
 	var fs []Finding
 	if len(x.Failed) > 0 {
 		for _, f := range x.Failed {
